@@ -294,8 +294,10 @@ func (g *c14Gen) star(cx, cy, s float64, kind int) (orb.Ring, float64) {
 	rmin := math.Inf(1)
 	gap := 2 * math.Pi / float64(k)
 	pts := make([][2]float64, k)
+	angs := make([]float64, k)
 	for i := 0; i < k; i++ {
 		a := gap * (float64(i) + 0.8*(g.r.Float64()-0.5))
+		angs[i] = a
 		rad := s
 		switch kind {
 		case 0:
@@ -307,6 +309,14 @@ func (g *c14Gen) star(cx, cy, s float64, kind int) (orb.Ring, float64) {
 			rmin = rad
 		}
 		pts[i] = [2]float64{rad * math.Cos(a) * ax, rad * math.Sin(a) * ay}
+	}
+	// the largest angular gap between consecutive vertices (the angles are increasing: the jitter is
+	// +-0.4 gap), including the wrap-around
+	maxGap := angs[0] + 2*math.Pi - angs[k-1]
+	for i := 1; i < k; i++ {
+		if d := angs[i] - angs[i-1]; d > maxGap {
+			maxGap = d
+		}
 	}
 	ring := make(orb.Ring, 0, k+1)
 	cr, sr := math.Cos(rot), math.Sin(rot)
@@ -322,8 +332,13 @@ func (g *c14Gen) star(cx, cy, s float64, kind int) (orb.Ring, float64) {
 	if g.r.Intn(2) == 0 {
 		ring.Reverse()
 	}
-	// angular gaps are at most 1.8*gap: the inscribed disc
-	in := rmin * math.Cos(math.Min(0.9*gap, 1.5)) * math.Min(ax, ay)
+	// the inscribed disc: an edge whose end points are at least rmin away and subtend the angle d < pi at
+	// the centre stays rmin*cos(d/2) away from it.  With a gap of pi or more (possible for k = 3, where
+	// gaps reach 1.8 * 2pi/3) the centre is NOT inside the ring: no disc, hence no holes.
+	in := 0.0
+	if maxGap < 0.95*math.Pi {
+		in = rmin * math.Cos(maxGap/2) * math.Min(ax, ay)
+	}
 	if snap {
 		in -= 1.5
 	}
@@ -348,6 +363,190 @@ func (g *c14Gen) polygon() orb.Polygon {
 		}
 	}
 	return p
+}
+
+// c14Thick returns the outline of the polyline c (consecutive segments perpendicular, each longer than
+// 1.5 w) thickened to width w with mitred corners: left side forward, right side backward.
+func c14Thick(c [][2]float64, w float64) [][2]float64 {
+	n := len(c)
+	h := w / 2
+	norm := func(a, b [2]float64) [2]float64 { // unit left normal of a->b
+		dx, dy := b[0]-a[0], b[1]-a[1]
+		l := math.Hypot(dx, dy)
+		return [2]float64{-dy / l, dx / l}
+	}
+	left := make([][2]float64, n)
+	right := make([][2]float64, n)
+	for i := 0; i < n; i++ {
+		var nx, ny float64
+		if i > 0 {
+			m := norm(c[i-1], c[i])
+			nx, ny = nx+m[0], ny+m[1]
+		}
+		if i < n-1 {
+			m := norm(c[i], c[i+1])
+			nx, ny = nx+m[0], ny+m[1]
+		}
+		left[i] = [2]float64{c[i][0] + h*nx, c[i][1] + h*ny}
+		right[i] = [2]float64{c[i][0] - h*nx, c[i][1] - h*ny}
+	}
+	out := append([][2]float64{}, left...)
+	for i := n - 1; i >= 0; i-- {
+		out = append(out, right[i])
+	}
+	return out
+}
+
+// shaped returns a simple closed polygon that is NOT star-shaped: a comb, a rectangular spiral, an
+// x-monotone staircase band (pure or zig-zag) or a U.  Rows cross the boundary many times (many same-row
+// re-entries of the trace).  The shape is built in its own units, rotated (one third axis-parallel),
+// scaled to the drawn extent, optionally snapped to tile corners (only when every feature is >= 3 tiles
+// wide), started at a random vertex in a random orientation.  The second result names the family.
+func (g *c14Gen) shaped() (orb.Polygon, string) {
+	var v [][2]float64
+	feat := 1.0 // smallest feature width (same units as v)
+	name := ""
+	switch g.r.Intn(4) {
+	case 0: // comb: k teeth of width a, gaps b, spine height h0, total height H
+		name = "comb"
+		k := 2 + g.r.Intn(7)
+		a, b := 0.5+g.r.Float64(), 0.5+g.r.Float64()
+		h0, H := 0.5+g.r.Float64(), 2+4*g.r.Float64()
+		W := float64(k)*a + float64(k-1)*b
+		v = append(v, [2]float64{0, 0}, [2]float64{W, 0})
+		for i := k - 1; i >= 0; i-- {
+			xl := float64(i) * (a + b)
+			xr := xl + a
+			v = append(v, [2]float64{xr, H}, [2]float64{xl, H})
+			if i > 0 {
+				v = append(v, [2]float64{xl, h0}, [2]float64{xl - b, h0})
+			}
+		}
+		feat = math.Min(math.Min(a, b), h0)
+	case 1: // rectangular spiral band
+		name = "spiral"
+		m := 4 + g.r.Intn(11)
+		L := 1.0
+		p := L / (float64(m)/2 + 1)
+		w := p * (0.3 + 0.3*g.r.Float64())
+		dirs := [4][2]float64{{1, 0}, {0, 1}, {-1, 0}, {0, -1}}
+		c := [][2]float64{{0, 0}}
+		for i := 0; i < m; i++ {
+			l := L
+			if i >= 3 {
+				l = L - float64((i-1)/2)*p
+			}
+			if l < 1.5*p {
+				break
+			}
+			d := dirs[i%4]
+			q := c[len(c)-1]
+			c = append(c, [2]float64{q[0] + d[0]*l, q[1] + d[1]*l})
+		}
+		v = c14Thick(c, w)
+		feat = math.Min(w, p-w)
+	case 2: // x-monotone staircase band: right, then up (pure) or up / down (zig-zag)
+		name = "stair"
+		k := 2 + g.r.Intn(7)
+		w := 0.3 + 0.3*g.r.Float64()
+		zig := g.r.Intn(2) == 0
+		c := [][2]float64{{0, 0}}
+		for i := 0; i < k; i++ {
+			q := c[len(c)-1]
+			q[0] += 1 + g.r.Float64()
+			c = append(c, q)
+			dy := 1 + g.r.Float64()
+			if zig && g.r.Intn(2) == 0 {
+				dy = -dy
+			}
+			q[1] += dy
+			c = append(c, q)
+		}
+		v = c14Thick(c, w)
+		feat = w
+	default: // U
+		name = "ushape"
+		W, H1, H2 := 1+2*g.r.Float64(), 1+3*g.r.Float64(), 1+3*g.r.Float64()
+		w := 0.15 + 0.45*g.r.Float64()
+		v = c14Thick([][2]float64{{0, H1}, {0, 0}, {W, 0}, {W, H2}}, w)
+		feat = math.Min(w, W-w)
+	}
+	// normalise: centre of the bounding box at the origin, half diagonal 1
+	minx, maxx, miny, maxy := v[0][0], v[0][0], v[0][1], v[0][1]
+	for _, q := range v {
+		minx, maxx = math.Min(minx, q[0]), math.Max(maxx, q[0])
+		miny, maxy = math.Min(miny, q[1]), math.Max(maxy, q[1])
+	}
+	mx, my := (minx+maxx)/2, (miny+maxy)/2
+	hd := math.Hypot(maxx-minx, maxy-miny) / 2
+	s := g.size()
+	cx, cy := g.center(s)
+	sc := s / hd
+	rot := g.r.Float64() * 2 * math.Pi
+	cr, sr := math.Cos(rot), math.Sin(rot)
+	if g.r.Intn(3) == 0 { // exact quarter turns: the edges stay exactly along constant x / y
+		q := [4][2]float64{{1, 0}, {0, 1}, {-1, 0}, {0, -1}}[g.r.Intn(4)]
+		cr, sr = q[0], q[1]
+	}
+	snap := feat*sc >= 3 && g.r.Intn(4) == 0
+	ring := make(orb.Ring, 0, len(v)+1)
+	start := g.r.Intn(len(v))
+	for i := range v {
+		q := v[(start+i)%len(v)]
+		x0, y0 := (q[0]-mx)*sc, (q[1]-my)*sc
+		x, y := cx+x0*cr-y0*sr, cy+x0*sr+y0*cr
+		if snap {
+			x, y = math.Round(x), math.Round(y)
+		}
+		ring = append(ring, g.toLL(x, y))
+	}
+	ring = append(ring, ring[0])
+	if g.r.Intn(2) == 0 {
+		ring.Reverse()
+	}
+	return orb.Polygon{ring}, name
+}
+
+// triangle returns a polygon whose outer ring is a closed triangle (4 points) with the centre inside.
+func (g *c14Gen) triangle() orb.Polygon {
+	s := g.size()
+	cx, cy := g.center(s)
+	rot := g.r.Float64() * 2 * math.Pi
+	ring := make(orb.Ring, 0, 4)
+	for i := 0; i < 3; i++ {
+		a := rot + 2*math.Pi/3*(float64(i)+0.5*(g.r.Float64()-0.5))
+		rad := s * (0.4 + 0.6*g.r.Float64())
+		ring = append(ring, g.toLL(cx+rad*math.Cos(a), cy+rad*math.Sin(a)))
+	}
+	ring = append(ring, ring[0])
+	if g.r.Intn(2) == 0 {
+		ring.Reverse()
+	}
+	return orb.Polygon{ring}
+}
+
+// worldLine returns a line string with vertices anywhere in the tile square: single segments span up to
+// 2*2^z - 2 tile steps (more than 2^z for one segment in six).
+func (g *c14Gen) worldLine() orb.LineString {
+	k := 2 + g.r.Intn(4)
+	ls := make(orb.LineString, 0, k)
+	for i := 0; i < k; i++ {
+		x, y := g.n*(0.005+0.99*g.r.Float64()), g.n*(0.01+0.98*g.r.Float64())
+		if g.r.Intn(3) == 0 { // towards opposite corners: the longest diagonals
+			x, y = g.n*(0.005+0.1*g.r.Float64()), g.n*(0.01+0.1*g.r.Float64())
+			if i%2 == 1 {
+				x, y = g.n-x, g.n-y
+			}
+			if g.r.Intn(2) == 0 {
+				y = g.n - y
+			}
+		}
+		ls = append(ls, g.toLL(x, y))
+	}
+	if ls[0] == ls[1] {
+		ls[1] = g.toLL(g.n*0.7, g.n*0.3)
+	}
+	return ls
 }
 
 // rect returns an axis-parallel closed ring (edges along constant lon / lat: dx = 0 or dy = 0 exactly).
@@ -498,6 +697,9 @@ func (g *c14Gen) geom(depth int) orb.Geometry {
 		}
 		return mp
 	case k < 7:
+		if g.z >= 2 && g.z <= 9 && g.r.Intn(5) == 0 {
+			return g.worldLine()
+		}
 		return g.lineString()
 	case k < 8:
 		n := size(g.r, 3)
@@ -517,6 +719,9 @@ func (g *c14Gen) geom(depth int) orb.Geometry {
 		}
 	case k < 14:
 		p := g.polygon()
+		if g.r.Intn(4) == 0 {
+			p, _ = g.shaped()
+		}
 		if g.r.Intn(12) == 0 {
 			p = append(p, g.oddRing())
 		}
@@ -531,7 +736,30 @@ func (g *c14Gen) geom(depth int) orb.Geometry {
 		n := size(g.r, 3)
 		m := make(orb.MultiPolygon, n)
 		for i := range m {
-			m[i] = g.polygon()
+			switch g.r.Intn(8) {
+			case 0: // a closed triangle: the smallest ring that is a polygon (4 points)
+				m[i] = g.triangle()
+			case 1:
+				m[i], _ = g.shaped()
+			default:
+				m[i] = g.polygon()
+			}
+		}
+		// a member that MultiPolygon may reject (`return nil, err`): an odd / open ring alone or as an
+		// extra ring, at a random position; an empty member
+		if n > 0 && g.r.Intn(4) == 0 {
+			i := g.r.Intn(n)
+			switch g.r.Intn(5) {
+			case 0:
+				m[i] = append(m[i], g.oddRing())
+			case 1:
+				m[i] = orb.Polygon{}
+			case 2:
+				m[i] = orb.Polygon{g.oddRing()}
+			default: // an open ring (a closed star without its last vertex): ErrUnevenIntersections for about half
+				r, _ := g.star(g.n/2, g.n/2, math.Min(g.size(), g.n*0.3), g.r.Intn(2))
+				m[i] = orb.Polygon{r[:len(r)-1]}
+			}
 		}
 		return m
 	case k < 17:
@@ -641,7 +869,8 @@ func genC14Merge(c *Ctx, n int) {
 		var tiles []maptile.Tile
 		var vals []bool
 		zoom := 0
-		switch rng.Intn(8) {
+		forceMin := -1
+		switch rng.Intn(9) {
 		case 0, 1: // a cover of a generated shape at a modest zoom
 			g := newC14Gen(rng)
 			for g.z > 14 {
@@ -715,6 +944,21 @@ func genC14Merge(c *Ctx, n int) {
 				w := uint32(1) << uint(zoom)
 				tiles = []maptile.Tile{{X: uint32(rng.Int63()) % w, Y: uint32(rng.Int63()) % w, Z: maptile.Zoom(zoom)}}
 			}
+		case 8: // one aligned block of depth d >= 2 (+ a few lone tiles): the merge passes through a level with
+			// exactly four parents that are siblings, and goes on for >= 2 levels
+			zoom = 2 + rng.Intn(11)
+			d := 2 + rng.Intn(c14Min(zoom, 4)-1)
+			bz := zoom - d
+			w := uint32(1) << uint(bz)
+			root := maptile.Tile{X: uint32(rng.Int63()) % w, Y: uint32(rng.Int63()) % w, Z: maptile.Zoom(bz)}
+			tiles = c14Block(root, uint(d))
+			wz := uint32(1) << uint(zoom)
+			for e := rng.Intn(3); e > 0; e-- {
+				tiles = append(tiles, maptile.Tile{X: uint32(rng.Int63()) % wz, Y: uint32(rng.Int63()) % wz, Z: maptile.Zoom(zoom)})
+			}
+			tiles = c14Dedup(tiles)
+			c14Shuffle(rng, tiles)
+			forceMin = rng.Intn(zoom - 1) // 0 .. zoom-2: at least two levels
 		default: // deep zoom, sparse
 			zoom = 10 + rng.Intn(13)
 			w := uint32(1) << uint(zoom)
@@ -741,6 +985,9 @@ func genC14Merge(c *Ctx, n int) {
 			min = c14Max(0, zoom-1)
 		default:
 			min = rng.Intn(zoom + 1)
+		}
+		if forceMin >= 0 {
+			min = forceMin
 		}
 		op, count := "merge", 0
 		if rng.Intn(5) == 0 {
@@ -808,6 +1055,37 @@ func genC14(c *Ctx) {
 			}
 		}
 		c14MergeCase(c, "merge", mask%3, 0, tiles, nil)
+	}
+
+	// fixed family per zoom: the last-column clamp of maptile.At (lon = 180) and the polar clamp of
+	// maptile.Fraction (|lat| > 85.0511) through tilecover.Point / MultiPoint / Bound
+	for z := 0; z <= 22; z++ {
+		pts := []orb.Point{{180, 0}, {180, 45.5}, {180, -85.0511}, {-180, 0}, {math.Nextafter(180, 0), 10},
+			{0, 90}, {0, -90}, {12.5, 85.06}, {-12.5, -85.06}, {180, 90}, {180, -90}, {-180, 90}, {-180, -90}}
+		var gl []orb.Geometry
+		for _, p := range pts {
+			gl = append(gl, p)
+		}
+		gl = append(gl, orb.MultiPoint(pts))
+		n := float64(uint64(1) << uint(z))
+		wl := 360.0 / n // one tile in degrees of longitude
+		gl = append(gl,
+			orb.Bound{Min: orb.Point{math.Max(-180, 180-1.5*wl), -1}, Max: orb.Point{180, 1}},     // ends in the last column
+			orb.Bound{Min: orb.Point{180, -1}, Max: orb.Point{180, 1}},                            // only lon = 180
+			orb.Bound{Min: orb.Point{10, 85.2}, Max: orb.Point{10 + 1.5*wl, 89}},                  // above the clamp
+			orb.Bound{Min: orb.Point{10, -89}, Max: orb.Point{10 + 1.5*wl, -85.2}},                // below the clamp
+			orb.Bound{Min: orb.Point{math.Max(-180, 180-0.5*wl), 84}, Max: orb.Point{180, 90}},    // corner of the world
+			orb.Bound{Min: orb.Point{-180, -90}, Max: orb.Point{math.Min(180, -180+0.5*wl), -84}}) // opposite corner
+		if z <= 4 {
+			gl = append(gl, orb.Bound{Min: orb.Point{-180, -90}, Max: orb.Point{180, 90}}) // the whole world
+		}
+		for _, geo := range gl {
+			i++
+			if !c.Mine(i) {
+				continue
+			}
+			c.Case("cover", fmt.Sprintf("%d %s", z, gs(geo)))
+		}
 	}
 
 	nm := c.Budget / 3
